@@ -56,6 +56,10 @@ def _task(task):
             rng = np.random.default_rng([task['seed'], 606])
             common = dict(bootstrap_factor=1.0, bootstrap_iteration=3, n_runners_up=3,
                           flatten=task.get('flatten', False), drop_level=task.get('drop_level'))
+            if task.get('max_gb') is not None:
+                # a memory budget so small that the CSC -> CSR rewrite of the query reads its values in
+                # several load chunks (boundaries fall inside columns and move when cells are added / removed)
+                common['max_gb'] = task['max_gb']
             base_cfg = dict(common, chunk_size=7, n_processors=2)
             base, _ = fx.run_mapping_world(world, fx.mapping_config(world, **base_cfg))
         except BaseException as e:   # noqa
@@ -148,10 +152,12 @@ def tasks_for(tier, seed):
     plan = [
         dict(world=dict(taxonomy='d3_bal', encoding='dense'), flatten=False, drop_level=None),
         dict(world=dict(taxonomy='d2_bal', encoding='csr', zero_cell=True), flatten=False, drop_level=None),
-        dict(world=dict(taxonomy='d3_chain', encoding='csc'), flatten=False, drop_level='subclass'),
+        dict(world=dict(taxonomy='d3_chain', encoding='csc', n_query=30), flatten=False, drop_level='subclass',
+             max_gb=1.0e-7),
         dict(world=dict(taxonomy='d1_four', encoding='dense', query_normalization='log2CPM'), flatten=False),
         dict(world=dict(taxonomy='d3_mid_single', encoding='csr'), flatten=True),
-        dict(world=dict(taxonomy='d2_single_child', encoding='csc', query_normalization='log2CPM'), flatten=False),
+        dict(world=dict(taxonomy='d2_single_child', encoding='csc', query_normalization='log2CPM', n_query=36),
+             flatten=False, max_gb=1.0e-8),
     ]
     out = []
     for i, p in enumerate(plan):
